@@ -86,6 +86,11 @@ func (s *Sim) follow(steps []step) (followed int, diverged string) {
 		case "CtxCancel":
 			s.ctxCancel(st.int(1))
 		case "Tick":
+			if s.cfg.Urgent && len(s.releasableRoles()) > 0 {
+				// the behaviour comes from a model whose timing differs from the code's: under the
+				// urgent policy time may not pass while a goroutine can run
+				return i, "Tick while an internal step is possible"
+			}
 			s.tick()
 		case "WakeTimeout":
 			// untimed model: let virtual time run until this caller's timer has fired
